@@ -200,4 +200,28 @@ def pipeline {κ τ : Type} (p : Parts κ τ) : List (Stage (BinFlags × κ) (PT
    blind (fun k => (p.resetEncoding k, [], false)),
    datesStage p, blind p.project, blind p.translator, messagesStage p]
 
+/-! ## "reported once per file": the accumulating part of `check_messages` (lines 853-870)
+
+`found_unusual_characters` collects what was reported already; a message is tagged with the unusual characters of its
+translations that are neither in its msgid nor reported before.  Which MESSAGE carries a character therefore depends on
+the order of the messages — the reason why the PO-versus-MO clause is stated for a PO file in msgfmt order. -/
+
+/-- `for msgstr in strings: uc = msgstr_uc - msgid_uc - found; if not uc: continue; tag(…); found |= uc` for one message;
+    `cands` = the sets `msgstr_uc - msgid_uc`, one per translation -/
+def blameStrings {μ : Type} (m : μ) : List Char → List (List Char) → List (μ × List Char) × List Char
+  | found, [] => ([], found)
+  | found, s :: rest =>
+    let uc := s.filter (fun c => !found.contains c)
+    if uc.isEmpty then blameStrings m found rest
+    else
+      let r := blameStrings m (found ++ uc) rest
+      ((m, uc) :: r.1, r.2)
+
+/-- the loop over the messages -/
+def blame {μ : Type} : List Char → List (μ × List (List Char)) → List (μ × List Char)
+  | _, [] => []
+  | found, (m, cands) :: rest =>
+    let r := blameStrings m found cands
+    r.1 ++ blame r.2 rest
+
 end I18n.Meta
